@@ -20,7 +20,7 @@ RULE = ('generated nodes (1..3 generated module classes: random parameter/comman
         'plain valid change')
 ASSUMPTIONS = ['ground truth = the generator spec (never derived from the built class)',
                'payload verdicts come from vlib.refdt; candidates in the tolerance band (either) are accepted both ways',
-               'a parameter has either limit parameters or a check hook, not both (a custom check replaces the automatic limit check by design)',
+               'a parameter whose class declares its limit parameters itself has either limits or a check hook (a custom check in the same class replaces the automatic limit check by design); when a subclass adds the limits, the inherited hook and the automatic limit check both apply',
                'requests are sent one per connection so that driver events can be attributed to a request']
 REQUIRED = ['nodes', 'requests', 'expect_refused', 'expect_accepted', 'driver_calls_checked', 'limit_moves', 'refused_by_limit',
             'do_requests', 'snapshots_compared', 'limit_race_runs', 'limit_race_writer_met_the_lock', 'struct_race_runs']
@@ -116,9 +116,14 @@ class World:
         r, rng = self.r, self.rng
         mspecs = [modgen.gen_module(rng, f'm{i}') for i in range(rng.choice([1, 2, 3]))]
         for ms in mspecs:
+            # class shape: limits declared beside the parameter, or added by a subclass of the class that defines the
+            # parameter; in the second shape an inherited check hook and the automatic limit check both apply
+            ms['split_limits'] = rng.random() < 0.4
             for p in ms['params']:
-                if p['limits'] and p['check']:
+                if p['limits'] and p['check'] and not ms['split_limits']:
                     p['check'] = None
+                if p['limits'] and p['check']:
+                    r.count('params_with_limits_added_beside_an_inherited_check_hook')
         try:
             self.build(mspecs)
         except BaseException as e:
@@ -348,9 +353,11 @@ class World:
             eps = abs(v) * 1e-9 + 1e-12
             if inverted and p['limits'] != 'limits':
                 return dict(base, klass='outside-limits', expect={'kind': 'refuse', 'classes': {'RangeError'}})
-            if v < lo - eps or v > hi + eps:
+            # decided on the differences (v and the bounds may differ by about one eps: hi + eps can round to v itself)
+            dlo, dhi = lo - v, v - hi
+            if dlo > 2 * eps or dhi > 2 * eps:
                 return dict(base, klass='outside-limits', expect={'kind': 'refuse', 'classes': {'RangeError'}})
-            if abs(v - lo) <= eps or abs(v - hi) <= eps:
+            if dlo > -2 * eps or dhi > -2 * eps:
                 cl = 'either'
         if p['check'] == 'reject-all':
             return dict(base, klass='check-hook', expect={'kind': 'refuse', 'classes': {'RangeError'}})
